@@ -359,8 +359,10 @@ def threads_and_fork(ctx):
                                "impl_records": res["recs"]}, False)
 
 # ---------------------------------------------------------------- end-to-end
-def c_program(fo_main, fo_threads):
-    """one C function per call node; main runs its forest, then each thread runs its own"""
+def c_program(fo_main, fo_threads, loc_of=None):
+    """one C function per call node; main runs its forest, then each thread runs its own.
+    loc_of: function class k -> label; the function is then compiled as if it stood in the source file loc<label>.c
+    (#line directive: that is the DW_AT_decl_file the location filter -L looks at)"""
     names = {}
     out = ["#include <stdio.h>", "#include <pthread.h>", "#include <time.h>", "static volatile unsigned long sink;",
            # the program's own readings of the clock uftrace uses (CLOCK_MONOTONIC), taken just before a call and
@@ -378,6 +380,8 @@ def c_program(fo_main, fo_threads):
         names[id(c)] = name
         kids = [emit(k) for k in c.kids]
         protos.append("void %s(void);" % name)
+        if loc_of is not None:
+            bodies.append('#line 1 "loc%s.c"' % loc_of(c.k))
         bodies.append("__attribute__((noinline)) void %s(void) { for (volatile int i = 0; i < 20; i++) sink += i; %s }"
                       % (name, " ".join("%s();" % k for k in kids)))
         return name
@@ -391,11 +395,15 @@ def c_program(fo_main, fo_threads):
         nb[0] += len(roots)
         brk["worker%d" % ti] = idxs
         protos.append("void *worker%d(void *a);" % ti)
+        if loc_of is not None:
+            bodies.append('#line 1 "locmain.c"')
         bodies.append("__attribute__((noinline)) void *worker%d(void *a) { %s return a; }"
                       % (ti, " ".join("BRACKET(%d, %s());" % (i, r) for i, r in zip(idxs, roots))))
         workers.append("worker%d" % ti)
     names["__brackets__"] = brk
     out += protos + bodies
+    if loc_of is not None:
+        out.append('#line 1 "locmain.c"')
     m = ["int main(void) {", "  pthread_t th[%d];" % max(1, len(workers))]
     m += ["  BRACKET(%d, %s());" % (i, r) for i, r in enumerate(mains)]
     for i, w in enumerate(workers):
@@ -563,7 +571,7 @@ def meta(ctx):
 
 def run(ctx):
     meta(ctx)
-    coq.prove(ctx, "C02", extra_files=["Mcount/Check"])
+    coq.prove(ctx, "C02", extra_files=["Mcount/Check", "Mcount/Table"])
     objdir = build.get_build("plain", ctx.log)
     inproc(ctx)
     known_depth_overflow(ctx)
@@ -573,7 +581,7 @@ def run(ctx):
 
 def replay(ctx, obj):
     meta(ctx)
-    coq.prove(ctx, "C02", extra_files=["Mcount/Check"])
+    coq.prove(ctx, "C02", extra_files=["Mcount/Check", "Mcount/Table"])
     if obj.get("mode") == "e2e" or "events" not in obj:
         ctx.log("replay: re-running the whole check for this kind of case")
         return run(ctx)
